@@ -219,25 +219,39 @@ func runTolerance(c *core.Ctx) []core.Obligation {
 		}
 		nSnap++
 		bad := ""
-		core.AllInstrs(fn, func(in ssa.Instruction) {
-			cv, ok := in.(*ssa.Convert)
-			if !ok {
+		// the method itself and the helpers of its own file that it calls (after round-8 seed C20-r8m1, rounding moved
+		// into a helper float64(int64(x + 0.5))): a conversion to an integer narrower than 64 bits overflows for the
+		// larger exponents, and ANY float-to-integer conversion truncates toward zero, i.e. rounds negative coordinates
+		// the wrong way by up to a full grid unit where the declared radius assumes half a unit.
+		seenFn := map[*ssa.Function]bool{}
+		var scan func(f *ssa.Function, depth int)
+		scan = func(f *ssa.Function, depth int) {
+			if f == nil || seenFn[f] || depth > 2 {
 				return
 			}
-			from, ok1 := cv.X.Type().Underlying().(*types.Basic)
-			to, ok2 := cv.Type().Underlying().(*types.Basic)
-			if !ok1 || !ok2 || from.Info()&types.IsFloat == 0 || to.Info()&types.IsInteger == 0 {
-				return
-			}
-			switch to.Kind() {
-			case types.Int64, types.Uint64:
-				return
-			}
-			bad = c.Pos(cv.Pos())
-		})
+			seenFn[f] = true
+			core.AllInstrs(f, func(in ssa.Instruction) {
+				if call, ok := in.(*ssa.Call); ok {
+					if cal := core.StaticCallee(call); cal != nil && core.IsGeo(cal) && strings.HasPrefix(c.Pos(cal.Pos()), "s2/builder_snapper.go") {
+						scan(cal, depth+1)
+					}
+				}
+				cv, ok := in.(*ssa.Convert)
+				if !ok {
+					return
+				}
+				from, ok1 := cv.X.Type().Underlying().(*types.Basic)
+				to, ok2 := cv.Type().Underlying().(*types.Basic)
+				if !ok1 || !ok2 || from.Info()&types.IsFloat == 0 || to.Info()&types.IsInteger == 0 {
+					return
+				}
+				bad = c.Pos(cv.Pos())
+			})
+		}
+		scan(fn, 0)
 		add("snapper:no-narrow-integer:"+core.FuncName(fn), c.Pos(fn.Pos()), core.FuncName(fn), bad == "",
-			"no floating-point coordinate is converted to an integer narrower than 64 bits",
-			"a scaled coordinate is converted to a "+"narrow integer at "+bad+": for the larger grid exponents the value (up to 180 * 10^10) does not fit, the conversion overflows, and SnapPoint returns a point far outside the declared snap radius")
+			"no floating-point coordinate is converted to an integer (rounding is done by math.Round in floating point)",
+			"a scaled coordinate is converted to an integer at "+bad+": a conversion truncates toward zero, so negative coordinates are rounded the wrong way by up to a full grid unit, and for the larger grid exponents a 32-bit integer overflows (180 * 10^10) - SnapPoint then moves the point farther than the snap radius the function declares")
 	}
 	// (8) edges longer than 90 degrees are always subdivided (after round-7 seed C20-r7m1, the guard rewritten as
 	// ChordAngleBetweenPoints(a, b) > s1.StraightChordAngle, which no chord angle can exceed): the two-sample
@@ -304,6 +318,87 @@ func runTolerance(c *core.Ctx) []core.Obligation {
 	} else {
 		add("tessellator:long-edges-always-split", "-", "", false, "", "unresolved anchor")
 	}
+	// (8b) an edge is accepted without further subdivision only on the error test (after round-8 seed C20-r8m2, a
+	// recursion-depth cut-off `depth >= 23 || estimate <= scaledTolerance`): the tolerance is a promise about the
+	// output, so every return of appendProjected / appendUnprojected that does not recurse lies behind the true side
+	// of estimateMaxError(...) <= scaledTolerance; any other way out hands back an edge whose error was never found
+	// small enough.
+	for _, name := range []string{"appendProjected", "appendUnprojected"} {
+		construct := "tessellator:accept-only-on-error-test:" + name
+		fn := c.Fn("s2", "EdgeTessellator", name)
+		if fn == nil {
+			add(construct, "-", "", false, "", "unresolved anchor")
+			continue
+		}
+		var okEdges []core.Edge
+		for _, b := range fn.Blocks {
+			ifi, ok := b.Instrs[len(b.Instrs)-1].(*ssa.If)
+			if !ok {
+				continue
+			}
+			bo, ok := ifi.Cond.(*ssa.BinOp)
+			if !ok {
+				continue
+			}
+			isEst := func(v ssa.Value) bool {
+				call, ok := v.(*ssa.Call)
+				return ok && core.StaticCallee(call) != nil && core.StaticCallee(call).Name() == "estimateMaxError"
+			}
+			// the bound is the tessellator's scaledTolerance itself (after round-9 seed C20-r9m1, a second acceptance
+			// against a field holding twice that): the scale factor is derived for exactly this comparison
+			isTol := func(v ssa.Value) bool {
+				fr, ok := core.AsFieldLoad(v)
+				return ok && fr.Name == "scaledTolerance"
+			}
+			if !(isEst(bo.X) && isTol(bo.Y)) && !(isEst(bo.Y) && isTol(bo.X)) {
+				continue
+			}
+			switch {
+			case isEst(bo.X) && (bo.Op == token.LEQ || bo.Op == token.LSS):
+				okEdges = append(okEdges, core.Edge{From: b, Idx: 0})
+			case isEst(bo.X) && (bo.Op == token.GTR || bo.Op == token.GEQ):
+				okEdges = append(okEdges, core.Edge{From: b, Idx: 1})
+			case isEst(bo.Y) && (bo.Op == token.GEQ || bo.Op == token.GTR):
+				okEdges = append(okEdges, core.Edge{From: b, Idx: 0})
+			case isEst(bo.Y) && (bo.Op == token.LEQ || bo.Op == token.LSS):
+				okEdges = append(okEdges, core.Edge{From: b, Idx: 1})
+			}
+		}
+		nacc, bad := 0, ""
+		for _, b := range fn.Blocks {
+			ret, ok := b.Instrs[len(b.Instrs)-1].(*ssa.Return)
+			if !ok {
+				continue
+			}
+			// does this return come straight from a recursive call?
+			recursive := false
+			if len(ret.Results) == 1 {
+				if call, ok := ret.Results[0].(*ssa.Call); ok && core.StaticCallee(call) == fn {
+					recursive = true
+				}
+			}
+			if recursive {
+				continue
+			}
+			nacc++
+			dominated := false
+			for _, e := range okEdges {
+				if core.EdgeDominates(e, b) {
+					dominated = true
+				}
+			}
+			if !dominated && bad == "" {
+				bad = c.Pos(ret.Pos())
+			}
+		}
+		switch {
+		case nacc == 0 || len(okEdges) == 0:
+			add(construct, c.Pos(fn.Pos()), core.FuncName(fn), false, "", "unresolved anchor: the accepting return or the error test was not found")
+		default:
+			add(construct, c.Pos(fn.Pos()), core.FuncName(fn), bad == "", fmt.Sprintf("%d accepting return(s), each behind estimateMaxError(...) <= scaledTolerance", nacc),
+				"the return at "+bad+" accepts the current edge without the error estimate having been found within the scaled tolerance (some other condition, a depth or size cut-off, also leads there): for inputs that need more subdivision than the cut-off allows - long high-latitude edges at tolerances near the minimum - the chain deviates from the geodesic by several times the requested tolerance")
+		}
+	}
 	// (9) the x coordinate is wrapped in projection units (after round-7 seed C20-r7m2,
 	// math.Remainder(toRadians*pt.X, xWrap)): xWrap is in the projection's own units, so the value reduced modulo
 	// xWrap must be the raw coordinate; scaled to radians first it is reduced modulo the wrong period whenever the
@@ -335,6 +430,7 @@ func runTolerance(c *core.Ctx) []core.Obligation {
 	if nSnap < 3 {
 		add("snapper:no-narrow-integer:anchor", "-", "", false, "", fmt.Sprintf("unresolved anchor: %d SnapPoint methods, 3 expected", nSnap))
 	}
+	obs = append(obs, lawOfSines(c)...)
 	return obs
 }
 
@@ -620,6 +716,7 @@ func runOrderIndep(c *core.Ctx) []core.Obligation {
 	} else {
 		add("intersectionExact:zero-test-on-float-vector", nil, false, "", "unresolved anchor")
 	}
+	obs = append(obs, interpolationErrorCross(c))
 	// (3) projection: tie between the two squared distances is broken by comparing the points
 	if fn := c.Fn("s2", "", "projection"); fn != nil {
 		usesCmp, cmpDist := false, false
@@ -767,6 +864,85 @@ func runErrModel(c *core.Ctx) []core.Obligation {
 	} else {
 		obs = append(obs, core.Ob("R-ERRMODEL", "interiorDist:early-exit-strict", "-", "", core.Violated, "unresolved anchor"))
 	}
+	// points handed out by the distance primitives are unit length (after round-8 seed C17-r8m2, the final Normalize
+	// of PointOnRay dropped as "redundant"): cos^2 + sin^2 = 1 holds to an ulp for one call, but the outputs of these
+	// functions are fed back as inputs (marching along a geodesic), the length drifts systematically, and every
+	// distance measured to or from such a point leaves its error bound. Every exported function of
+	// edge_distances.go that returns a Point built from vector arithmetic normalises it.
+	{
+		n, bad := 0, ""
+		for _, f := range c.GeoFuncs() {
+			if f.Parent() != nil || f.Object() == nil || !f.Object().Exported() || f.Signature.Results().Len() == 0 {
+				continue
+			}
+			if pos := c.Pos(f.Pos()); !strings.HasPrefix(pos, "s2/edge_distances.go") {
+				continue
+			}
+			if !core.IsNamed(f.Signature.Results().At(0).Type(), "s2", "Point") {
+				continue
+			}
+			var raw func(v ssa.Value, d int) bool // v is a Point assembled from un-normalised arithmetic
+			raw = func(v ssa.Value, d int) bool {
+				if d > 6 {
+					return false
+				}
+				switch x := v.(type) {
+				case *ssa.Phi:
+					for _, e := range x.Edges {
+						if raw(e, d+1) {
+							return true
+						}
+					}
+				case *ssa.UnOp:
+					if x.Op != token.MUL {
+						return false
+					}
+					al, ok := x.X.(*ssa.Alloc)
+					if !ok {
+						return false
+					}
+					for _, r := range *al.Referrers() {
+						fa, ok := r.(*ssa.FieldAddr)
+						if !ok {
+							continue
+						}
+						for _, r2 := range *fa.Referrers() {
+							st, ok := r2.(*ssa.Store)
+							if !ok || st.Addr != ssa.Value(fa) {
+								continue
+							}
+							if call, ok := st.Val.(*ssa.Call); ok && core.StaticCallee(call) != nil {
+								switch core.StaticCallee(call).Name() {
+								case "Add", "Sub", "Mul", "Cross":
+									return true
+								}
+							}
+						}
+					}
+				}
+				return false
+			}
+			for _, b := range f.Blocks {
+				ret, ok := b.Instrs[len(b.Instrs)-1].(*ssa.Return)
+				if !ok || len(ret.Results) == 0 {
+					continue
+				}
+				n++
+				if raw(ret.Results[0], 0) && bad == "" {
+					bad = core.FuncName(f) + " at " + c.Pos(ret.Pos())
+				}
+			}
+		}
+		switch {
+		case n < 6:
+			obs = append(obs, core.Ob("R-ERRMODEL", "edge_distances:returned-points-normalised", "-", "", core.Violated, fmt.Sprintf("unresolved anchor: %d returns of a Point in exported functions of edge_distances.go, 6 expected", n)))
+		case bad != "":
+			obs = append(obs, core.Ob("R-ERRMODEL", "edge_distances:returned-points-normalised", "-", "", core.Violated,
+				bad+" returns a Point assembled from vector arithmetic without Normalize(): the result is unit length only up to rounding, and when such points are fed back into the same functions the length drifts (1e-14 after a thousand steps); distances to and from the drifted points exceed their documented error bounds, and a point constructed on an edge is no longer at distance 0 from it"))
+		default:
+			obs = append(obs, core.Ob("R-ERRMODEL", "edge_distances:returned-points-normalised", "-", "", core.Discharged, fmt.Sprintf("%d returns examined: parameters, results of other library functions, or normalised vectors", n)))
+		}
+	}
 	// the wedge test that separates the interior case from the vertex case is inclusive at both ends (after round-7
 	// seed C17-r7m1, `>= 0` turned into `> 0`): a query point that IS an endpoint must take the vertex case, whose
 	// distance to that endpoint is exactly 0; the interior formula gives a few 1e-17 instead.
@@ -805,5 +981,6 @@ func runErrModel(c *core.Ctx) []core.Obligation {
 				"the wedge tests that hand a point to the vertex case compare with 0 as {"+got+"}, expected {<= >=}: with a strict test a query point that coincides with an endpoint is treated as lying over the edge's interior, and its distance comes from the interior formula (a few 1e-17 rad) instead of the exact 0 of the vertex case"))
 		}
 	}
+	obs = append(obs, chordFromLengthClamped(c)...)
 	return obs
 }
